@@ -100,3 +100,143 @@ def referenced_stable(c, outcome, before, after):
         if l and cid in bo and cid in ao and before["O" + cid] != after["O" + cid]:
             bad.append("bytes of referenced object %s changed" % cid)
     return bad
+
+
+def rebind_rejected(c, outcome, before, after):
+    """C03: a store_object / tag_object for a bound pid is rejected with an already-exists error and
+    changes nothing (but possibly one new object); a binding changes only through delete_object."""
+    bad = []
+    bb, bl, bo, bm, _ = refs_of(before)
+    ab, al, ao, am, _ = refs_of(after)
+    # bindings change only by delete_object(pid)
+    for p, cid in bb.items():
+        if ab.get(p) != cid and not (c["op"] == "del" and str(c["p"]) == p):
+            bad.append("binding of pid %s changed from %s to %s by %s" % (p, cid, ab.get(p), c["op"]))
+    if c["op"] in ("so", "tag") and c.get("p") is not None and str(c["p"]) in bb:
+        ok_classes = ["exn:HashStoreRefsAlreadyExists", "exn:PidRefsAlreadyExistsError"]
+        if c["op"] == "so":
+            if c.get("s") == "m":
+                ok_classes = ["exn:ValueError"]
+            elif c.get("sz") == "b":
+                ok_classes = ["exn:NonMatchingObjSize"]
+            elif c.get("ck") == "b":
+                ok_classes = ["exn:NonMatchingChecksum"]
+        if outcome not in ok_classes:
+            bad.append("%s for bound pid %s returned %s (expected %s)" % (c["op"], c["p"], outcome, ok_classes))
+        if ab != bb or al != bl or am != bm:
+            bad.append("rejected %s for bound pid %s changed references / metadata" % (c["op"], c["p"]))
+        for cid in bo:
+            if cid not in ao or before["O" + cid] != after["O" + cid]:
+                bad.append("rejected %s for bound pid %s disturbed object %s" % (c["op"], c["p"], cid))
+        new = ao - bo
+        if new and not (c["op"] == "so" and new == {str(c["b"])}):
+            bad.append("rejected call created objects %s" % sorted(new))
+    return bad
+
+
+def last_delete_and_guard(c, outcome, before, after):
+    """C04: last referencing pid deleted -> object removed; delete_if_invalid never touches a
+    referenced object."""
+    bad = []
+    bb, bl, bo, _, _ = refs_of(before)
+    ab, al, ao, _, _ = refs_of(after)
+    if c["op"] == "del" and outcome == "ok:unit":
+        p = str(c["p"])
+        cid = bb.get(p)
+        if cid is not None and bl.get(cid) == [p]:
+            if cid in ao:
+                bad.append("object %s survives deletion of its last referencing pid %s" % (cid, p))
+            if cid in al:
+                bad.append("reference list of %s survives deletion of its last pid" % cid)
+    if c["op"] == "dii":
+        cid = str(c["c"])
+        if bl.get(cid) and before != after:
+            bad.append("delete_if_invalid_object changed the store although %s is referenced" % cid)
+    return bad
+
+
+def verdict_exact(c, outcome, before, after):
+    """C06: verdict is exactly 'size and checksum match'; effects of an invalid / valid verdict."""
+    bad = []
+    bb, bl, bo, _, _ = refs_of(before)
+    ab, al, ao, _, res = refs_of(after)
+    if c["op"] == "so" and c.get("p") is not None and c.get("s", "p") != "m":
+        exp = None
+        if c.get("sz") == "b":
+            exp = "exn:NonMatchingObjSize"
+        elif c.get("ck") == "b":
+            exp = "exn:NonMatchingChecksum"
+        if exp:
+            if outcome != exp:
+                bad.append("invalid validation data (%s) judged %s, expected %s" % ((c.get("sz"), c.get("ck"), c.get("real")), outcome, exp))
+            if ab != bb:
+                bad.append("invalid verdict but bindings changed")
+            if ao - bo:
+                bad.append("invalid verdict but object %s was added" % sorted(ao - bo))
+            if any(k.startswith("T") for k in after):
+                bad.append("invalid verdict left a temporary file")
+            if before != {k: v for k, v in after.items()}:
+                if not bad:
+                    bad.append("invalid verdict changed the store")
+        else:
+            if outcome in ("exn:NonMatchingObjSize", "exn:NonMatchingChecksum"):
+                bad.append("correct/absent validation data (%s) rejected with %s" % ((c.get("sz"), c.get("ck"), c.get("real")), outcome))
+    if c["op"] == "dii":
+        cid = str(c["c"])
+        if cid in bo:                      # the object being judged exists
+            exp = None
+            if c.get("sz") == "b":
+                exp = "exn:NonMatchingObjSize"
+            elif not c["ok"]:
+                exp = "exn:NonMatchingChecksum"
+            if exp:
+                if outcome != exp:
+                    bad.append("delete_if_invalid_object: invalid data %s judged %s, expected %s" % (c.get("real"), outcome, exp))
+                referenced = bool(bl.get(cid)) or ("R" + cid) in before
+                if referenced and before != after:
+                    bad.append("invalid verdict on a referenced object changed the store")
+                if not referenced and cid in ao:
+                    bad.append("invalid verdict on unreferenced object %s did not remove it" % cid)
+                if not referenced and {k: v for k, v in before.items() if k != "O" + cid} != after:
+                    bad.append("invalid verdict removed/changed more than the object")
+            else:
+                if outcome != "ok:unit":
+                    bad.append("delete_if_invalid_object: correct data %s rejected with %s" % (c.get("real"), outcome))
+                if before != after:
+                    bad.append("valid verdict changed the store")
+    return bad
+
+
+class MetaTracker:
+    """C11: reference dictionary (pid, format) -> version kept by the harness."""
+
+    def __init__(self):
+        self.d = {}
+
+    def step(self, c, outcome, before, after):
+        bad = []
+        op = c["op"]
+        if op == "sm" and outcome.startswith("ok:"):
+            self.d[(c["p"], c["f"])] = "D%d.%d.%d" % (c["v"], c["n"], c["n"]) if c["n"] else "D0.0.0"
+        elif op == "dm" and outcome == "ok:unit":
+            if c["f"] is None:
+                for k in [k for k in self.d if k[0] == c["p"]]:
+                    del self.d[k]
+            else:
+                self.d.pop((c["p"], c["f"]), None)
+        elif op == "del" and outcome == "ok:unit":
+            for k in [k for k in self.d if k[0] == c["p"]]:
+                del self.d[k]
+        if op == "rm":
+            exp = self.d.get((c["p"], c["f"]))
+            want = "ok:bytes:" + exp if exp else "exn:ValueError"
+            if outcome != want:
+                bad.append("retrieve_metadata(%s,%s) returned %s, expected %s" % (c["p"], c["f"], outcome, want))
+        if op == "dm" and outcome != "ok:unit":
+            bad.append("delete_metadata returned %s" % outcome)
+        _, _, _, am, _ = refs_of(after)
+        have = {k: v for k, v in am.items()}
+        want = {"%d.%d" % k: v for k, v in self.d.items()}
+        if have != want:
+            bad.append("metadata tree %s differs from reference %s" % (have, want))
+        return bad
